@@ -129,7 +129,7 @@ def unhex(r):
     parts = r.split()
     if len(parts) >= 3 and parts[-1].startswith('x'):
         try:
-            return ' '.join(parts[:-1]) + ' ' + bytes.fromhex(parts[-1][1:]).decode('utf-8', 'replace')
+            return ' '.join(parts[:-1]) + ' ' + bytes.fromhex(parts[-1][1:]).decode('utf-8', 'replace').replace('\n', ' ')
         except ValueError:
             pass
     return r
@@ -804,7 +804,10 @@ def cases_C10(rng, tier):
             else:
                 dl = str(rng.choice([0, -1]))
             keys = 'tuple' if rng.random() < 0.4 else '(' + ' '.join(rng.sample(['x', 'y', 'z', 'w'], k)) + ')'
-            tags = dict(func=func, k=k, shared=shared, depth_limit=dl, tuple=(keys == 'tuple'), mismatch=mm)
+            def strlike(t):
+                return t[0] == 'str' or (t[0] == 'opt' and t[1][0] == 'str')
+            tags = dict(func=func, k=k, shared=shared, depth_limit=dl, tuple=(keys == 'tuple'), mismatch=mm,
+                        all_strings=all(strlike(a['type']) for a in arrs))
             out.append(C.Case(cid, func, [dl, keys], [arr(a['layout']) for a in arrs],
                               dict(nontrivial=len(arrs[0]['vals']) > 0, tags=tags, types=[a['type'] for a in arrs])))
         elif r < 0.52:
@@ -874,7 +877,8 @@ def cases_C10(rng, tier):
             if func == 'get_with_field' and where is None:
                 where = ['new']
                 wk = 'new'
-            sole = bool(where) and len(where) == 1 and ks == where
+            sole = bool(where) and ((len(where) == 1 and ks == where) or
+                                    (len(where) == 2 and [nm for nm, _ in inner[1]] == where[1:]))
             tags = dict(func=func, where=wk, what=wkind, shared=shared, tuple=rt[2], mismatch=mm, sole_field=sole,
                         nfields=len(ks))
             out.append(C.Case(cid, func, ['(' + ' '.join(where) + ')' if where else 'none'], [arr(b['layout']), what],
@@ -946,8 +950,15 @@ def signature(prop, c, impl, verdict):
             if tg.get('reg0') and tg.get('axis', 0) >= 1 and impl.startswith('err') and 'RegularArray of size' in msg:
                 return 'regular-size1-to-size0'
     if prop == 'C10':
+        if f in ('zip', 'unzip_zip') and tg.get('all_strings') and tg.get('depth_limit') == 'none':
+            return 'zip-all-strings-gives-one-record'
         if f in ('with_field', 'get_with_field') and tg.get('sole_field') and tg.get('shared', 1) >= 1:
             return 'with-field-sole-field-drops-structure'
+    if any(has_reg0(l) for l in lays) and impl.startswith('err') and verdict.startswith('viol value'):
+        return 'regular-size0-refused'
+    if any(has_node(l, ('reg',)) for l in lays) and impl.startswith('err') and 'cannot broadcast' in msg \
+            and ' of length ' in msg and verdict.startswith('viol value') and '(spec err)' not in verdict:
+        return 'regular-level-no-left-broadcast'
     return None
 
 
